@@ -95,20 +95,24 @@ def R.deriv (c : Nat) : R → R
   | .alt a b => .alt (a.deriv c) (b.deriv c)
   | .star a => .cat (a.deriv c) (.star a)
 
+def mkCat (a b : R) : R :=
+  match a, b with
+  | .empty, _ => .empty
+  | _, .empty => .empty
+  | .eps, b => b
+  | a, .eps => a
+  | a, b => .cat a b
+
+def mkAlt (a b : R) : R :=
+  match a, b with
+  | .empty, b => b
+  | a, .empty => a
+  | a, b => if a = b then a else .alt a b
+
 /-- cheap simplification (keeps derivatives small; language preserving) -/
 def R.simp : R → R
-  | .cat a b =>
-    match a.simp, b.simp with
-    | .empty, _ => .empty
-    | _, .empty => .empty
-    | .eps, b' => b'
-    | a', .eps => a'
-    | a', b' => .cat a' b'
-  | .alt a b =>
-    match a.simp, b.simp with
-    | .empty, b' => b'
-    | a', .empty => a'
-    | a', b' => if a' = b' then a' else .alt a' b'
+  | .cat a b => mkCat a.simp b.simp
+  | .alt a b => mkAlt a.simp b.simp
   | r => r
 
 /-- whole-string match (`re.fullmatch`) -/
@@ -367,8 +371,10 @@ deriving Repr
 /-- an element of `active[key]` -/
 inductive Entry where
   | plain (f : Fn)
-  | matcher (mid : Nat) (src : Option (Nat × Option Nat)) (port : Option Nat)
-      (tmpl : Option (List TItem)) (f : Fn)          -- `mid` = identity of the (outermost) matcher object
+  | matcher (mid : Nat) (owner : Nat) (src : Option (Nat × Option Nat)) (port : Option Nat)
+      (tmpl : Option (List TItem)) (f : Fn)          -- `mid` = identity of the (outermost) matcher object;
+                                                     -- `owner` = the responder it was made for (ghost: no
+                                                     -- operation of the model reads it)
 deriving Repr
 
 /-- Python object identity, on which `list.index` / `list.remove` compare these callables -/
@@ -438,7 +444,7 @@ def setResp (s : St) (rid : Nat) (r : Resp) : St :=
 
 /-- `wrap_func`: always a distinct object per responder (repair D-C18-4: without filters it is
     `functools.partial(fn.value, func)`, a matcher that accepts everything) -/
-def wrapFunc (r : Resp) (fresh : Nat) : Entry := .matcher fresh r.src r.port r.tmpl r.func
+def wrapFunc (rid : Nat) (r : Resp) (fresh : Nat) : Entry := .matcher fresh rid r.src r.port r.tmpl r.func
 
 /-- `self.active[key].append(func)` / `self.active[key] = [func]` -/
 def activeAppend (key : Str) (e : Entry) : List (Str × List Entry) → List (Str × List Entry)
@@ -476,7 +482,7 @@ def cmdRemove (k : ActKey) (l : List ActKey) : List ActKey := l.filter (· != k)
 /-- `dispatcher.add(func_proxy)` -/
 def dispAdd (s : St) (rid : Nat) (r : Resp) : St :=
   let d := s.disp r.disp
-  let e := wrapFunc r s.nextId
+  let e := wrapFunc rid r s.nextId
   let d' : Disp := { active := activeAppend r.path e d.active
                      wrapped := (d.wrapped.filter (·.1 != rid)) ++ [(rid, e)]
                      registered := true }
@@ -500,7 +506,7 @@ def dispUpdate (s : St) (rid : Nat) (r : Resp) : St :=
   match d.wrapped.find? (·.1 == rid) with
   | none => s
   | some (_, old) =>
-    let e := wrapFunc r s.nextId
+    let e := wrapFunc rid r s.nextId
     let d' : Disp := { d with active := activeReplace r.path old.ident e d.active
                               wrapped := d.wrapped.map fun p => if p.1 == rid then (rid, e) else p }
     { (s.setDisp r.disp d') with nextId := s.nextId + 1 }
@@ -557,7 +563,8 @@ def newResp (s : St) (rid : Nat) (kind : DispKind) (path : Str) (src : Option (N
     | 47 :: _ => path
     | _ => 47 :: path
   let r : Resp := ⟨path', src, port, tmpl, .user fid, false, false, kind⟩
-  enable { s with resps := s.resps ++ [(rid, r)] } rid
+  if (lookupResp s rid).isSome then s          -- identities are fresh: a known id is not created again
+  else enable { s with resps := s.resps ++ [(rid, r)] } rid
 
 /-- `CmdPeriod.run()` restricted to the registered actions: responders' `__on_cmd_period` frees them;
     user actions are logged -/
@@ -618,13 +625,13 @@ def portOk : Option Nat → Nat → Bool
 def Entry.accepts (env : Env) (e : Entry) (d : Delivery) : Bool :=
   match e with
   | .plain _ => true
-  | .matcher _ src port tmpl _ =>
+  | .matcher _ _ src port tmpl _ =>
     srcOk src d.sender && portOk port d.port &&
       (match tmpl with | none => true | some t => tmplOk env t d.params)
 
 def Entry.fn : Entry → Fn
   | .plain f => f
-  | .matcher _ _ _ _ f => f
+  | .matcher _ _ _ _ _ f => f
 
 /-- calling a callable: a one-shot closure frees its responder, then calls what it wraps -/
 def callFn (s : St) : Fn → St × List Nat
